@@ -346,7 +346,9 @@ func (g *gen) put() m.Put {
 
 // hostile: field combinations a well-behaved client library would not build (C13)
 func (g *gen) hostilePut() m.Put {
-	keys := []string{"", "a", "a/b", "s", "t/u", "__oxia/x", "__oxia/zz/y"}
+	// incl. records written by plain puts whose keys look like sequence keys of the prefixes "s" and "t/u"
+	keys := []string{"", "a", "a/b", "s", "t/u", "__oxia/x", "__oxia/zz/y", "s", "t/u",
+		"s-12x", "s-7", "s-100000000000000000000", "s--5", "s-00000000000000000007-v2", "t/u-3-4y", "s-00000000000000000001-99999999999999999999"}
 	deltas := [][]int{{}, {}, {0}, {0, 1}, {1}, {2}, {1, 1}, {1, 0, 3}, {3, 2, 1, 1}}
 	p := m.Put{Key: m.K(g.pick(keys)), Val: 1 + g.rng.Intn(900), Exp: m.NoExp, Sess: m.NoSess, Idx: []m.IdxE{}}
 	p.Deltas = append([]int{}, deltas[g.rng.Intn(len(deltas))]...)
